@@ -179,6 +179,12 @@ func equalArms(c *Ctx, rule string, totality bool) {
 				r := p.Rets[0]
 				rb := p.RetB[0]
 				key := "arm " + k + ": " + sc.name
+				// the whole list comparison delegated to slices.EqualFunc(a-list, b-list, Equal): by the library's
+				// contract false when the lengths differ, otherwise Equal on the same index of both
+				if isLeaflist && sc.bok && equalFuncOverLists(r.V, eq, sideOf) {
+					c.OK(rule, fnName(eq), key, P.Pos(ar.aAssert.Pos()), "slices.EqualFunc over the element lists of both sides with Equal itself")
+					continue
+				}
 				switch {
 				case !sc.bok, isLeaflist && sc.rel != 0, isLeaflist && !sc.req && p.Has(lbl("call:"+recName)):
 					c.Check(rb == 0, rule, fnName(eq), key, P.Pos(ar.aAssert.Pos()), fmt.Sprintf("must return false; returns %s (folded: %d); path: %s", retClass(r), rb, p.String()))
@@ -354,4 +360,31 @@ func fieldPath(v ssa.Value) (string, ssa.Value) {
 		}
 	}
 	return "", nil
+}
+
+// equalFuncOverLists: v is slices.EqualFunc(x, y, eq) with x read from side a and y from side b.
+func equalFuncOverLists(v ssa.Value, eq *ssa.Function, sideOf func(ssa.Value) string) bool {
+	call, ok := v.(*ssa.Call)
+	if !ok {
+		return false
+	}
+	g := staticCallee(&call.Call)
+	if g == nil || pkgPathOf(g) != "slices" || !strings.HasPrefix(g.Name(), "EqualFunc") || len(call.Call.Args) != 3 {
+		return false
+	}
+	fn := call.Call.Args[2]
+	if ct, ok := fn.(*ssa.ChangeType); ok {
+		fn = ct.X
+	}
+	if f, ok := fn.(*ssa.Function); !ok || f != eq {
+		return false
+	}
+	side := func(v ssa.Value) string {
+		if ta, ok := assertRoot(v).(*ssa.TypeAssert); ok {
+			return sideOf(ta.X)
+		}
+		return ""
+	}
+	sa, sb := side(call.Call.Args[0]), side(call.Call.Args[1])
+	return strings.HasPrefix(sa, "a") && strings.HasPrefix(sb, "b")
 }
